@@ -206,6 +206,51 @@ func runC04(c *fw.Ctx) {
 		c04Both(c, genSoup(r))
 	})
 
+	// ill-formed UTF-8 injected into ARBITRARY accepted inputs (not only serialiser output): if an input is accepted and
+	// its root demonstrably closes at its last byte (the input without that byte is rejected), every ill-formed sequence
+	// placed between the root bracket and that last byte must make it rejected
+	c.Cases("soup-injection", c.N(20000, 1000000), false, func(i int, r *rng.R) {
+		text := genSoup(r)
+		if len(text) < 3 || len(text) > 300 {
+			return
+		}
+		for which := 0; which < 2; which++ {
+			parse := doParseList
+			open := strings.IndexByte(text, '[')
+			name := "ParseList"
+			if which == 1 {
+				parse, open, name = doParseObject, strings.IndexByte(text, '{'), "ParseObject"
+			}
+			if open < 0 || open >= len(text)-1 {
+				continue
+			}
+			if o := parse(text); !o.NilE || o.Panic != "" {
+				continue
+			}
+			if o := parse(text[:len(text)-1]); o.NilE {
+				continue // the root closes earlier: where exactly is not known
+			}
+			c.Count("injection_hosts")
+			for k := 0; k < 4; k++ {
+				pos := open + 1 + r.Intn(len(text)-open-1)
+				bad := illFormed[r.Intn(len(illFormed))]
+				doc := text[:pos] + bad.bytes + text[pos:]
+				if utf8.ValidString(doc[:len(doc)-1]) {
+					continue
+				}
+				c.MarkInput(doc)
+				o := parse(doc)
+				c.Count("soup_injections")
+				if !checkOutcome(c, name, doc, o) {
+					continue
+				}
+				if o.NilE {
+					c.Violate("ill-formed-utf8-accepted", fmt.Sprintf("%s on %s (class %s injected at offset %d of the accepted input %s)", name, quoteBytes(doc), bad.name, pos, quoteBytes(text)), "error", "accepted as "+spec.Trunc(o.Canon, 300))
+				}
+			}
+		}
+	})
+
 	// the same inputs parsed by several goroutines at once give the outcomes they give sequentially
 	c.Cases("concurrent", c.N(40, 2000), false, func(i int, r *rng.R) {
 		g := r.Range(2, 10)
@@ -349,7 +394,24 @@ func runC04(c *fw.Ctx) {
 	os.MkdirAll(dir, 0o755)
 	c.Cases("parsefile", c.N(200, 30000), false, func(i int, r *rng.R) {
 		var text string
-		if i%25 == 7 {
+		if i%25 == 9 {
+			// byte order marks and other encodings in front of / instead of UTF-8 text: ParseFile must treat the bytes
+			// exactly as ParseObject does
+			doc := "{\"a\":[1,\"x\"]}"
+			u16 := func(le bool) string {
+				var b []byte
+				for _, ch := range doc {
+					if le {
+						b = append(b, byte(ch), 0)
+					} else {
+						b = append(b, 0, byte(ch))
+					}
+				}
+				return string(b)
+			}
+			text = []string{"\xef\xbb\xbf" + doc, "\xff\xfe" + doc, "\xfe\xff" + doc, "\xff\xfe" + u16(true), "\xfe\xff" + u16(false), u16(true), "\xff\xfe\x00\x00" + doc, "\x00\x00\xfe\xff" + doc, "\xef\xbb\xbf", "\xff\xfe"}[(i/25)%10]
+			c.Count("parsefile_bom_files")
+		} else if i%25 == 7 {
 			// large files: single lines around the usual buffer sizes (4 KiB, 64 KiB, 1 MiB) and many short lines
 			size := []int{4095, 4096, 4097, 65535, 65536, 65537, 70000, 200000, 1 << 20, 1<<20 + 1}[(i/25)%10]
 			var b strings.Builder
